@@ -338,17 +338,25 @@ def run(ctx):
                     eq_t = t_true if c.name == "eq" else t_false
                     if eq_t is not None:
                         eq_edges.add((sw, eq_t))
-            seen, st_ = {0}, [0]
-            while st_:
-                x = st_.pop()
-                for y in b.succ(x):
-                    if y in seen or (x, y) in eq_edges or b.is_cleanup(y):
-                        continue
-                    seen.add(y)
-                    st_.append(y)
+            # path-sensitive: the decision may be stored first (`let rejection = if unit != expected { Some(..) } ..; match rejection`)
+            from mq.sim import Sim, Budget
+
+            class _Passed(Sim):
+                def on_edge(self, src, dst, a, env):
+                    return True if (src, dst) in eq_edges else a
+
+                def on_call(self, t, bb, a, env):
+                    if not a and bb in use_bbs:
+                        bad_uses.add(bb)
+                    return None
+            use_bbs, bad_uses = {u.bb for u in uses}, set()
+            try:
+                _Passed(b).run(0, False)
+            except Budget:
+                bad_uses = set(use_bbs)
             for u in uses:
                 n9 += 1
-                ctx.check(u.bb not in seen and bool(eq_edges), "R19.9", fnkey(b) + "#observations-taken-only-when-unit-matches", loc(b, u.bb),
+                ctx.check(u.bb not in bad_uses and bool(eq_edges), "R19.9", fnkey(b) + "#observations-taken-only-when-unit-matches", loc(b, u.bb),
                           "the collecting writer consumes the observations on a path that does not pass the `written unit == promised unit` outcome "
                           "(the comparison is skipped or its result ignored there): numbers written under another unit are recorded under the promised one "
                           "without a validation error", "every path to the consumption passes the units-equal edge")
